@@ -119,7 +119,10 @@ let () =
           print_endline (string_of_cz (Labels.x64_rip_field (cz_of_string disp) (cz_of_string imm) (cz_of_string lo) (cz_of_string hole)))
         | ["A64"; pc; w] ->
           (* architectural meaning of an AArch64 word through the structural decoder Labels.A64Dec *)
-          print_endline (match Labels.a64_site_target (cz_of_string pc) (cz_of_string w) with Some t -> string_of_cz t | None -> "none")
+          (* + the database mnemonic number and row id of the decoded instruction (Labels.A64DbTie) *)
+          print_endline (match Labels.a64_site_target (cz_of_string pc) (cz_of_string w), Labels.a64_dec (cz_of_string w) with
+                         | Some t, Some i -> Printf.sprintf "%s %s %s" (string_of_cz t) (string_of_cz (Labels.a64_mn i)) (string_of_cz (Labels.a64_rid i))
+                         | _, _ -> "none")
         | ["DUMP"] ->
           (match !fl with
            | None -> print_endline (dump !st)
